@@ -156,19 +156,14 @@ def expInc (r : List Char) : Bool :=
     if c = 'e' ∨ c = 'E' then
       match r' with
       | [] => true
-      | s :: r'' =>
-        let r3 := if s = '+' ∨ s = '-' then r'' else s :: r''
-        match r3.takeWhile isDigit, r3.dropWhile isDigit with
-        | _, [] => true          -- no more input where `digit1` wants a (further) digit
-        | _, _ :: _ => false
+      | _ :: _ =>
+        match (stripPlusMinus r').2.dropWhile isDigit with
+        | [] => true          -- no more input where `digit1` wants a (further) digit
+        | _ :: _ => false
     else false
 
-/-- Does the streaming `recognize_float` return `Incomplete` on this input? -/
-def fltInc (inp : List Char) : Bool :=
-  let r := match inp with
-    | '+' :: r => r
-    | '-' :: r => r
-    | _ => inp
+/-- The part of the streaming `recognize_float` after the optional sign. -/
+def fltIncBody (r : List Char) : Bool :=
   match r with
   | [] => true
   | _ :: _ =>
@@ -184,6 +179,9 @@ def fltInc (inp : List Char) : Bool :=
          | [], _ :: _ => false
          | _ :: _, x :: r3 => expInc (x :: r3))
       | _ => false
+
+/-- Does the streaming `recognize_float` return `Incomplete` on this input? -/
+def fltInc (inp : List Char) : Bool := fltIncBody (stripPlusMinus inp).2
 
 /-- `map(number::double, NumericValue::Float)`. -/
 def lexFloatM (st : Bool) (inp : List Char) : Lx Num :=
